@@ -20,6 +20,7 @@ func init() {
 	register(&Prop{ID: "C04", Run: runC04, Replay: map[string]func(*mc.Ctx, json.RawMessage){
 		"path": replayer(c04EvalPath),
 		"seed": replayer(c04EvalSeed),
+		"twin": replayer(c04EvalTwin),
 	}})
 }
 
@@ -434,6 +435,7 @@ func runC04(c *mc.Ctx) {
 		c04EvalPath(w, cases[i])
 	})
 	c.Sample("path", cases[10])
+	runC04Twins(c)
 
 	// seeds: legal and illegal lengths on every net
 	var seedCases []c04Seed
